@@ -46,7 +46,7 @@ def opRthConv (args impl : List String) : Verdict :=
       | .error err => expectTokens [toString err.code] impl [s!"conv:rc{err.code}"]
       | .ok bytes =>
         match impl with
-        | [rc, hx, durTok] =>
+        | rc :: hx :: durTok :: ptoks =>
           if rc ≠ "0" then .fail s!"model ok, impl rc {rc}"
           else if hx ≠ bytesToHex bytes then .fail s!"bytes: model {bytesToHex bytes} impl {hx}"
           else
@@ -100,6 +100,37 @@ def opRthConv (args impl : List String) : Verdict :=
                     if absR (pos.x - idl.x) ≤ lim ∧ absR (pos.y - idl.y) ≤ lim ∧ absR (pos.z - idl.z) ≤ lim then none
                     else some s!"at {ratToString tau} ms: trajectory {fmtVec pos} ideal {fmtVec idl} quantum {q} slack {ratToString (slackAt tau)}"
                   | .error _ => some "model query failed")
+                -- the library's own player on the generated trajectory (harness-chosen interior instants of its segments):
+                -- within one quantum of the ideal path, plus what the binary32 time stamp can move a point along a leg
+                let lenOf (a b : Vec4) : Rat := max (absR (b.x - a.x)) (max (absR (b.y - a.y)) (absR (b.z - a.z)))
+                let speed : Rat := max (if dn > 0 then lenOf start p1 / (dn : Rat) else 0) (if da > 0 then lenOf p1 fin / (da : Rat) else 0)
+                let maxLen : Rat := max (lenOf start p1) (lenOf p1 fin)
+                -- a leg of at most 60 s is one segment between knots at whole milliseconds: no timing slack there
+                let slackP (tau : Rat) : Rat :=
+                  if tau ≤ (d0 : Rat) then 0
+                  else if tau ≤ ((d0 + dn : Nat) : Rat) then (if dn ≤ 60000 then 0 else legSlack start p1 dn)
+                  else if tau ≤ ((d0 + dn + da : Nat) : Rat) then (if da ≤ 60000 then 0 else legSlack p1 fin da)
+                  else 0
+                let rec playerBad (ts : List String) (fuel : Nat) : Option String :=
+                  match fuel, ts with
+                  | 0, _ => none
+                  | _, [] => none
+                  | fuel + 1, "P" :: tb :: qrc :: xb :: yb :: zb :: rest =>
+                    match ratOfBits tb, ratOfBits xb, ratOfBits yb, ratOfBits zb with
+                    | some t, some x, some y, some z =>
+                      if qrc ≠ "0" then some s!"player query at {ratToString t} s failed with {qrc}"
+                      else
+                        let tau : Rat := t * 1000
+                        let idl := idealAt start e d0 dn da tau
+                        let lim := q + slackP tau + (absR idl.x + absR idl.y + absR idl.z + 1) / 1048576
+                                     + speed * (absR tau / 2097152 + 1 / 1000) + maxLen / 262144
+                        if absR (x - idl.x) ≤ lim ∧ absR (y - idl.y) ≤ lim ∧ absR (z - idl.z) ≤ lim then playerBad rest fuel
+                        else some s!"library player at {ratToString tau} ms: ({ratToString x}, {ratToString y}, {ratToString z}) ideal {fmtVec idl} allowed {ratToString lim}"
+                    | _, _, _, _ => some "library player returned a non-finite position"
+                  | _, _ => some s!"answer shape (player probes) {" ".intercalate ts}"
+                let bad := match bad with
+                  | m :: _ => [m]
+                  | [] => match playerBad ptoks (ptoks.length + 1) with | some m => [m] | none => []
                 match bad with
                 | m :: _ => .fail m
                 | [] =>
